@@ -104,6 +104,12 @@ def _calls(op, st, dtype, upper):
             return [("torch.%s(op, c)" % f, getattr(torch, f)(op, c)), ("op.%s(c)" % f, getattr(op, f)(c))]
         if f == "matmul":
             return [("torch.matmul(op, X)", torch.matmul(op, X)), ("op.matmul(X)", op.matmul(X))]
+        if f == "matmul_op":
+            other = bind.build(st["argterm"], dtype)
+            return [("torch.matmul(op, other)", torch.matmul(op, other)), ("op @ other", op @ other)]
+        if f == "op_matmul":
+            other = bind.build(st["argterm"], dtype)
+            return [("torch.matmul(other, op)", torch.matmul(other, op)), ("other @ op", other @ op)]
         if f == "isclose":
             return [("torch.isclose(op, X, 0.0, 0.5)", torch.isclose(op, X, 0.0, 0.5).to(dtype)),
                     ("torch.isclose(op, X, rtol=0.0, atol=0.5)", torch.isclose(op, X, rtol=0.0, atol=0.5).to(dtype))]
